@@ -36,6 +36,8 @@ PROP_TIES = {
     'C15': _keys('Position', 'transact', ['err', 'refusal']) + _keys('Position', 'updatePrice', ['err', 'refusal']) +
            _keys('Portfolio', 'subscribe', ['err', 'refusal']) + _keys('Portfolio', 'withdraw', ['err', 'refusal']) +
            _keys('Portfolio', 'transactAsset', ['err', 'refusal']),
+    'C14': ['Session.plan'],
+    'C16': ['Session.plan'],
     'C19': ['Universe.dynamicAssets', 'Optimiser.equalWeight', 'Alpha.singleSignal'],
     'C01': ['Portfolio.subscribe', 'Portfolio.withdraw', 'Portfolio.transactAsset'],
     'C04': ['Broker.makeTxn#fill'],
@@ -45,7 +47,7 @@ PROP_TIES = {
     'C08': ['Broker.makeTxn', 'PercentFee.totalCost', 'ZeroFee.totalCost', 'DW.normalise', 'DW.quantity', 'LS.normalise', 'LS.quantity',
             'Position.net', 'Position.marketValue'] + _keys('Position', 'transact', _POS_FIELDS_QTY) + _keys('Position', 'openFrom', _POS_FIELDS_QTY),
 }
-_UNIT_OF = {'Universe': 'Kernels', 'Optimiser': 'Kernels', 'Alpha': 'Kernels', 'Portfolio': 'Kernels', 'PercentFee': 'Kernels', 'ZeroFee': 'Kernels', 'DW': 'Kernels', 'LS': 'Kernels', 'Broker': 'Kernels'}
+_UNIT_OF = {'Session': 'Plan', 'Universe': 'Kernels', 'Optimiser': 'Kernels', 'Alpha': 'Kernels', 'Portfolio': 'Kernels', 'PercentFee': 'Kernels', 'ZeroFee': 'Kernels', 'DW': 'Kernels', 'LS': 'Kernels', 'Broker': 'Kernels'}
 
 
 # hand-written corollaries that restate property clauses for the translated source (QsProofs/Tie/Lifted.lean); the module
